@@ -179,7 +179,7 @@ func c14R1(p *core.Prog, r *core.Report) {
 
 func c14R2(p *core.Prog, r *core.Report) {
 	const rule = "C14.R2"
-	r.Rule(rule, "once per digest: every blob copy of the traversal goes through the gate; the gate's key is the target repository with tag and digest cleared plus the blob digest", 4)
+	r.Rule(rule, "once per digest: every blob copy of the traversal goes through the gate; the gate's key is the target repository with tag and digest cleared plus the blob digest", 2)
 	trav := copyTraversal(p)
 	sow := p.Func(".", "imageSeenOrWait")
 	if trav == nil || sow == nil {
@@ -196,34 +196,80 @@ func c14R2(p *core.Prog, r *core.Report) {
 		})
 	}
 	r.Check(direct == "", rule, p.FuncName(trav), "blob copies go through the gate", p.Pos(trav.Pos()), "the traversal must not call BlobCopy directly ("+direct+"): shared blobs would be transferred once per referencing manifest")
-	// every gate call: repo key from SetTag("").CommonName()
+	// the key under which the gate records an entry: the key of the store into the seen map. Its
+	// repository part is CommonName() of the target with tag and digest cleared by SetTag(""), computed
+	// in the gate itself or handed in by every caller
 	lab := map[string]labeler{}
-	for _, st := range p.Callers(sow) {
-		c, ok := st.Site.(*ssa.Call)
-		if !ok || core.CalleeFn(c) != sow {
-			continue
-		}
-		fname := p.FuncName(st.From)
-		if lab[fname] == nil {
-			lab[fname] = labeler{}
-		}
-		repo := c.Call.Args[2]
-		okKey := false
-		detail := "the repository part of the key is not CommonName() of the target ref with tag and digest cleared by SetTag(\"\")"
-		for _, cn := range originCallsDeep(p, repo, 2) {
-			if cal := core.Callee(cn); cal == nil || !core.IsModMethod(cal, "types/ref", "Ref", "CommonName") {
-				continue
+	cleared := func(cn *ssa.Call) bool {
+		for _, stc := range originCalls(core.CallArg(cn, 0)) {
+			if cal := core.Callee(stc); cal != nil && core.IsModMethod(cal, "types/ref", "Ref", "SetTag") {
+				if s, isC := core.ConstString(stc.Call.Args[len(stc.Call.Args)-1]); isC && s == "" {
+					return true
+				}
 			}
-			for _, stc := range originCalls(core.CallArg(cn, 0)) {
-				if cal := core.Callee(stc); cal != nil && core.IsModMethod(cal, "types/ref", "Ref", "SetTag") {
-					if s, isC := core.ConstString(stc.Call.Args[len(stc.Call.Args)-1]); isC && s == "" {
-						okKey = true
-						detail = "key = refTgt.SetTag(\"\").CommonName() (SetTag clears tag and digest)"
+		}
+		return false
+	}
+	isCommonName := func(c *ssa.Call) bool {
+		cal := core.Callee(c)
+		return cal != nil && core.IsModMethod(cal, "types/ref", "Ref", "CommonName")
+	}
+	const badKey = "the repository part of the key is not CommonName() of the target ref with tag and digest cleared by SetTag(\"\"): a key that keeps the digest of the referencing manifest makes every platform copy its own copy of a shared layer"
+	var keyLeaves []ssa.Value
+	for _, blk := range sow.Blocks {
+		for _, in := range blk.Instrs {
+			if mu, ok := in.(*ssa.MapUpdate); ok && isStringType(mu.Key.Type()) {
+				keyLeaves = append(keyLeaves, pathLeaves(mu.Key)...)
+			}
+		}
+	}
+	if len(keyLeaves) == 0 {
+		r.Undecided(rule, p.FuncName(sow), "gate key", p.Pos(sow.Pos()), "no store into a string-keyed map found in the gate")
+	}
+	inGate := false
+	var repoParams []int
+	for _, l := range keyLeaves {
+		for _, o := range core.Origins(l, core.SliceOpts{}) {
+			switch o.Kind {
+			case core.OCall:
+				if isCommonName(o.Call) {
+					inGate = true
+					r.Check(cleared(o.Call), rule, p.FuncName(sow), "gate key", p.Pos(o.Call.Pos()), map[bool]string{true: "key = tgt.SetTag(\"\").CommonName() computed in the gate (SetTag clears tag and digest)", false: badKey}[cleared(o.Call)])
+				}
+			case core.OParam:
+				if isStringType(o.Param.Type()) && !core.IsNamed(o.Param.Type(), "github.com/opencontainers/go-digest", "Digest") {
+					for i, q := range sow.Params {
+						if q == o.Param {
+							repoParams = append(repoParams, i)
+						}
 					}
 				}
 			}
 		}
-		r.Check(okKey, rule, fname, lab[fname].next("gate key"), p.Pos(c.Pos()), detail+map[bool]string{true: "", false: ": a key that keeps the digest of the referencing manifest makes every platform copy its own copy of a shared layer"}[okKey])
+	}
+	if !inGate {
+		for _, st := range p.Callers(sow) {
+			c, ok := st.Site.(*ssa.Call)
+			if !ok || core.CalleeFn(c) != sow {
+				continue
+			}
+			fname := p.FuncName(st.From)
+			if lab[fname] == nil {
+				lab[fname] = labeler{}
+			}
+			okKey := false
+			for _, idx := range repoParams {
+				if idx >= len(c.Call.Args) {
+					continue
+				}
+				for _, cn := range originCallsDeep(p, c.Call.Args[idx], 2) {
+					if isCommonName(cn) && cleared(cn) {
+						okKey = true
+					}
+				}
+			}
+			r.Check(okKey, rule, fname, lab[fname].next("gate key"), p.Pos(c.Pos()), map[bool]string{true: "key = refTgt.SetTag(\"\").CommonName() (SetTag clears tag and digest)", false: badKey}[okKey])
+		}
 	}
 	// the blob wrapper takes the gate before the copy
 	for _, fn := range pkgFuncs(p, ".") {
@@ -274,7 +320,7 @@ func c14R2(p *core.Prog, r *core.Report) {
 
 func c14R3(p *core.Prog, r *core.Report) {
 	const rule = "C14.R3"
-	r.Rule(rule, "retagging within one repository moves nothing: every goroutine that copies an index entry, the config or a layer is started behind the false edge of ref.EqualRepository(src, tgt)", 3)
+	r.Rule(rule, "retagging within one repository moves nothing: every goroutine that copies an index entry, the config or a layer is started behind the false edge of ref.EqualRepository(src, tgt)", 2)
 	trav := copyTraversal(p)
 	if trav == nil {
 		r.MissingAnchor(rule, "copy traversal")
@@ -282,31 +328,53 @@ func c14R3(p *core.Prog, r *core.Report) {
 	}
 	name := p.FuncName(trav)
 	lab := labeler{}
+	// spawn wrappers: literals of the traversal that start a goroutine for a function they are given
+	wrappers := map[*ssa.Function]bool{}
+	for _, lit := range trav.AnonFuncs {
+		core.Calls(lit, func(c ssa.CallInstruction) {
+			if _, isGo := c.(*ssa.Go); isGo {
+				wrappers[lit] = true
+			}
+		})
+	}
 	for _, b := range trav.Blocks {
 		for _, in := range b.Instrs {
-			g, ok := in.(*ssa.Go)
-			if !ok {
-				continue
-			}
-			lit := closureOf(g.Call.Value)
-			if lit == nil {
-				continue
-			}
-			// classify the goroutine: copies a blob of this manifest or an entry of this index?
-			content := false
-			core.Calls(lit, func(c ssa.CallInstruction) {
-				if gfn := core.CalleeFn(c); gfn != nil && gfn.Name() == "imageCopyBlob" {
-					content = true
-				}
-				if core.CalleeFn(c) == trav {
-					// index entry: the descriptor argument comes from the manifest list (free variable bound in a range over GetManifestList)
-					for _, oc := range originCalls(core.CallArg(c, 4)) {
-						if isInvoke(oc, "GetManifestList") {
-							content = true
+			// a spawn site: a go statement, or a call of a spawn wrapper; task is what runs
+			var task *ssa.Function
+			switch x := in.(type) {
+			case *ssa.Go:
+				task = closureOf(x.Call.Value)
+			case *ssa.Call:
+				if w := closureOf(x.Call.Value); w != nil && wrappers[w] {
+					for _, a := range x.Call.Args {
+						if t := closureOf(a); t != nil {
+							task = t
 						}
 					}
 				}
-			})
+			}
+			if task == nil {
+				continue
+			}
+			// classify the goroutine: copies a blob of this manifest or an entry of this index? (the body
+			// may call an unexported helper that does it)
+			content := false
+			hs := core.HelpersExcept(task, 2, func(h *ssa.Function) bool { return h == trav || h.Name() == "imageCopyBlob" })
+			for _, f := range sortedFuncs(hs) {
+				core.Calls(f, func(c ssa.CallInstruction) {
+					if gfn := core.CalleeFn(c); gfn != nil && gfn.Name() == "imageCopyBlob" {
+						content = true
+					}
+					if core.CalleeFn(c) == trav {
+						// index entry: the descriptor argument comes from the manifest list (free variable bound in a range over GetManifestList)
+						for _, o := range core.Origins(core.CallArg(c, 4), core.SliceOpts{Helpers: hs, Callers: hs}) {
+							if o.Kind == core.OCall && isInvoke(o.Call, "GetManifestList") {
+								content = true
+							}
+						}
+					}
+				})
+			}
 			if !content {
 				continue
 			}
@@ -314,7 +382,7 @@ func c14R3(p *core.Prog, r *core.Report) {
 				c, isCall := v.(*ssa.Call)
 				return isCall && core.Callee(c) != nil && core.IsModFunc(core.Callee(c), "types/ref", "EqualRepository")
 			})
-			r.Check(ok2, rule, name, lab.next("content goroutine"), p.Pos(g.Pos()), "started only when source and target repositories differ")
+			r.Check(ok2, rule, name, lab.next("content goroutine"), p.Pos(in.Pos()), "started only when source and target repositories differ")
 		}
 	}
 }
